@@ -41,6 +41,8 @@ def conc(t, p, r):
             else (list(v) if r == "list" else v)
     if r == "str upper":
         return v.upper()
+    if r == "bytes":
+        return (v if isinstance(v, str) else repr(v)).encode("utf-8")
     if r == "int":
         return int(v)
     if r == "float":
